@@ -84,6 +84,20 @@ CHECKS = {
         'Steps depend only on persisted state (inputs, ctx, continuation arguments); every restore uses a fresh deserialisation; workchains here register no live awaitables.',
         'DESIGN.md section 3 C08',
     ),
+    'C11': (
+        'exploration',
+        'model-based property testing: bounded-exhaustive enumeration of a two-level spec family (~10^5 spec/input pairs) plus Hypothesis-generated spec trees and perturbed inputs, compared with an independent reference model of acceptance and of the parsed form',
+        'For every (spec, inputs) pair the constructor must raise exactly when the reference model rejects; on acceptance `inputs` (as plain nested dict) must equal the model parse (defaults, callable defaults evaluated, populate_defaults=False namespaces left out, {} for namespaces with ports), every declared namespace level must refuse item assignment, raw_inputs must equal the given dict and the caller dict must be deep-equal to its pre-call copy with identical leaf objects.',
+        'Plain dict inputs, never the empty tuple; values for a namespace are dicts, ints or None; defaults valid by construction; validators total; no namespace-level defaults.',
+        'DESIGN.md section 3 C11',
+    ),
+    'C12': (
+        'exploration',
+        'model-based property testing: generated output specs x emission sequences, the reference model is consulted after every out() and at the finish',
+        'After each out(path, value): accepted by the model => no exception, outputs equal the model outputs, listeners saw (path, value); rejected => raises (ValueError for value/type/validator/undeclared-port rejections) and outputs unchanged. At the end: FINISHED, result() is the returned value, future().result() equals outputs, is_successful/successful() equal the model validation of the collected outputs.',
+        'A path is never both leaf and namespace within a sequence; dynamic namespaces carry no namespace validator; nothing is emitted onto a declared namespace name.',
+        'DESIGN.md section 3 C12',
+    ),
 }
 
 PENDING = {f'C{n:02d}': 'check not built yet in this round (see DESIGN.md section 9 for the build order)' for n in range(1, 21)}
